@@ -10,6 +10,7 @@
 #define VF_FAMILIES_HPP
 #include "core.hpp"
 #include "items.hpp"
+#include "hll_model.hpp"
 #include <theta_sketch.hpp>
 #include <theta_union.hpp>
 #include <tuple_sketch.hpp>
@@ -61,6 +62,7 @@ struct Obj {
   virtual bool observe_changes_state() { return false; }       // documented side effects of getters
   virtual std::string extra_view(const Bytes&) { return std::string(); }  // wrapped read-only access over an image (theta, bloom)
   virtual bool beyond_exact() { return false; }         // state beyond exact mode (for non-triviality rules)
+  virtual bool continuation_order_sensitive(int v) { return image_order_unspecified(v); }  // continuing from that image may depend on the (unspecified) entry order
   virtual std::string observe_order_free() { return observe_coarse(); }  // what must stay equal when continuing from an image whose entry order is unspecified
   virtual std::string finding_key() { return std::string(); }  // non-empty: the state is one that a listed open finding is about (keys the round-trip checks)
   virtual std::string observe_coarse() { return observe(); }  // what must stay equal when continuing is not deterministic (REQ)
@@ -81,12 +83,24 @@ inline float fval(int pat, uint64_t i, uint64_t n, Rng& r) {
     default: return static_cast<float>(r.unit() * 1000.0 - 500.0);
   }
 }
+// recipe key "bs": string items carry arbitrary bytes (0xFF, 0xFE, 0x80, 0x01) at the end / in the middle - legal std::string content for every serde
+inline bool& binary_strings() { static bool b = false; return b; }
+inline void add_binary_bytes(std::string& s, uint64_t v) {
+  if (!binary_strings()) return;
+  switch (v % 4) {
+    case 0: s.push_back(static_cast<char>(0xFF)); break;
+    case 1: s.insert(s.size() / 2, 1, static_cast<char>(0xFF)); s.push_back(static_cast<char>(0x80)); break;
+    case 2: s.push_back(static_cast<char>(0x01)); s.push_back(static_cast<char>(0xFE)); break;  // no NUL: the library's to_string (parsed by c10_layout) goes through c_str()
+    default: break;
+  }
+}
 inline std::string sval(int pat, uint64_t i, uint64_t n, Rng& r) {
   uint64_t v;
   switch (pat % 4) { case 0: v = i; break; case 1: v = n - i; break; case 2: v = r.below(4 * n + 1); break; default: v = r.below(5); }
   std::string s = std::to_string(v);
   if ((v % 7) == 0) s += std::string(static_cast<size_t>(v % 40), 'x');  // some long strings (serde lengths)
   if ((v % 11) == 3) s.clear();                                           // the empty string is a legal item
+  else add_binary_bytes(s, v);
   return s;
 }
 struct GreaterLen {  // custom stateless comparator: length, then lexicographic
@@ -219,7 +233,13 @@ struct HllObj : Obj {
   P from_bytes(const uint8_t* p, size_t n) override { return P(new HllObj(hll_sketch::deserialize(p, n))); }
   P from_stream(std::istream& is) override { return P(new HllObj(hll_sketch::deserialize(is))); }
   long advertised_size(int v) override { return v == 1 ? sk.get_updatable_serialization_bytes() : sk.get_compact_serialization_bytes(); }
-  bool image_order_unspecified(int v) override { auto b = sk.serialize_compact(); return v == 0 && b.size() >= 8 && (b[7] & 3) == 1; }  // compact SET mode dumps the hash set in slot order
+  bool continuation_order_sensitive(int v) override { auto b = sk.serialize_compact(); return v == 0 && b.size() >= 8 && (b[7] & 3) == 1; }  // only the coupon order of a compact SET image feeds the HIP accumulator
+  bool image_order_unspecified(int v) override {
+    auto b = sk.serialize_compact();
+    if (v == 0 && b.size() >= 8 && (b[7] & 3) == 1) return true;  // compact SET mode dumps the hash set in slot order
+    // HLL_4 with exceptions: the aux hash table is dumped in slot order (compact) or as it is (updatable); slot order depends on the insertion history
+    return b.size() >= 40 && (b[7] & 3) == 2 && sk.get_target_type() == HLL_4 && ref_le32(b.data() + 36) > 0;
+  }
   void cont(const Op& op) override {
     uint64_t n = op.uarg(0) % 5000;
     if (op.name == "m") { hll_sketch o(sk.get_lg_config_k(), sk.get_target_type()); for (uint64_t i = 0; i < n; ++i) o.update(static_cast<int64_t>(op.uarg(2) % 1000 + 7 * i)); hll_union u(sk.get_lg_config_k()); u.update(sk); u.update(o); sk = u.get_result(sk.get_target_type()); }
@@ -332,7 +352,7 @@ template <> inline QsS QObj<QsS, std::string, GreaterLen, 2>::fresh(int k, bool)
 // ---------------------------------------------------------------- frequent items
 template <typename T> struct FiItem;
 template <> struct FiItem<int64_t> { static int64_t get(uint64_t v) { return static_cast<int64_t>(v) - 3; } static std::string show(int64_t v) { return std::to_string(v); } };
-template <> struct FiItem<std::string> { static std::string get(uint64_t v) { std::string s = std::to_string(v); if (v % 5 == 0) s += std::string(v % 33, 'y'); if (v == 4) s.clear(); return s; } static std::string show(const std::string& v) { return "\"" + v + "\""; } };
+template <> struct FiItem<std::string> { static std::string get(uint64_t v) { std::string s = std::to_string(v); if (v % 5 == 0) s += std::string(v % 33, 'y'); if (v == 4) s.clear(); else add_binary_bytes(s, v); return s; } static std::string show(const std::string& v) { return "\"" + v + "\""; } };
 template <typename T>
 struct FiObj : Obj {
   typedef frequent_items_sketch<T> SK;
@@ -387,7 +407,7 @@ struct CmObj : Obj {
 // ---------------------------------------------------------------- VarOpt sketch / union, EBPPS
 template <typename T> struct VoItem;
 template <> struct VoItem<int64_t> { static int64_t get(uint64_t v) { return static_cast<int64_t>(v); } static std::string show(int64_t v) { return std::to_string(v); } };
-template <> struct VoItem<std::string> { static std::string get(uint64_t v) { return "item" + std::to_string(v) + std::string(v % 9, '.'); } static std::string show(const std::string& v) { return v; } };
+template <> struct VoItem<std::string> { static std::string get(uint64_t v) { std::string s = "item" + std::to_string(v) + std::string(v % 9, '.'); add_binary_bytes(s, v); return s; } static std::string show(const std::string& v) { return v; } };
 inline double weight_pat(int pat, uint64_t i, Rng& r) {
   switch (pat % 5) { case 0: return 1.0; case 1: return std::ldexp(1.0, static_cast<int>(i % 20)); case 2: return 1.0 + static_cast<double>(r.below(1000)); case 3: return static_cast<double>(i + 1); default: return i == 3 ? 1e9 : 2.0; }
 }
@@ -581,6 +601,7 @@ inline P make(const Case& rc) {
   int64_t a = rc.get("a", 0), b = rc.get("b", 0), c = rc.get("c", 0);
   uint64_t seed = seed_sel(rc.get("seed", 0));
   own_randomness(mix64(static_cast<uint64_t>(rc.get("rnd", 1)) + f));
+  binary_strings() = (rc.get("bs", 0) & 1) != 0;   // absent in the frozen corpus recipes
   P obj;
   switch (f) {
     case F_THETA: case F_TUPLE: case F_AOD: {
@@ -626,6 +647,12 @@ inline P make(const Case& rc) {
     case F_BLOOM: obj.reset(new BloomObj(bloom_filter::builder::create_by_size(1 + static_cast<uint64_t>(a % 3000), static_cast<uint16_t>(1 + b % 9), seed))); break;
     default: obj.reset(new DensObj(density_sketch<float>(static_cast<uint16_t>(2 + a % 30), static_cast<uint32_t>(1 + b % 4))));
   }
+  // recipe key "hp" (HLL): a few keys with register value >= 15 first - HLL_4 keeps them in its exception table (aux area of the images)
+  if (f == F_HLL && rc.get("hp", 0) > 0) {
+    const auto& pool = high_pool().keys;
+    HllObj& h = static_cast<HllObj&>(*obj);
+    for (int64_t j = 0; j < rc.get("hp", 0) % 8 && !pool.empty(); ++j) h.sk.update(static_cast<int64_t>(pool[static_cast<size_t>(mix64(static_cast<uint64_t>(a) * 31 + static_cast<uint64_t>(j)) % pool.size())].first));
+  }
   for (const Op& op : rc.ops) {
     if (op.name == "u" || op.name == "m") obj->cont(op);
     else if (op.name == "mk") { Op o2 = op; if (!(f >= F_KLL_F && f <= F_QS_S)) o2.name = "m"; obj->cont(o2); }  // only the quantile families merge across k
@@ -641,7 +668,7 @@ inline rc::Gen<Case> recipe_gen(rc::Gen<int64_t> famgen) {
   auto mk = rc::gen::map(rc::gen::tuple(nGen, range(0, 7), range(0, 1 << 20), range(0, 63)), [](std::tuple<int64_t, int64_t, int64_t, int64_t> t) { return Op{"mk", {std::get<0>(t), std::get<1>(t), std::get<2>(t), std::get<3>(t)}}; });
   auto ops = oplist(choose({{6, u}, {1, m}, {1, mk}}), 1, 0.05);
   return make_case({{"fam", std::move(famgen)}, {"a", range(0, 1 << 16)}, {"b", range(0, 1 << 16)}, {"c", range(0, 1 << 16)},
-                    {"seed", rc::gen::weightedOneOf<int64_t>({{3, rc::gen::just<int64_t>(0)}, {1, range(1, 1000)}})}, {"rnd", range(1, 1 << 20)}, {"t", range(0, 1)}, {"ls", range(0, 1)}},
+                    {"seed", rc::gen::weightedOneOf<int64_t>({{3, rc::gen::just<int64_t>(0)}, {1, range(1, 1000)}})}, {"rnd", range(1, 1 << 20)}, {"t", range(0, 1)}, {"ls", range(0, 1)}, {"bs", range(0, 1)}, {"hp", rc::gen::weightedOneOf<int64_t>({{2, rc::gen::just<int64_t>(0)}, {1, range(1, 7)}})}},
                    ops);
 }
 
